@@ -13,7 +13,9 @@ Translated on every run from the source of the IMPORTED module (inspect.getsourc
   - `exec_agg_loop`: its else-branch, when it is inside the fragment (reported, not required),
   - `exec_order_tail`: from the statement `if order_spec is not None:` to the final `return`; that statement must directly
     follow the dispatch `if` (nothing untranslated in between);
-* the `EvalPivot` branch of `execute_query` (`exec_pivot`), when it is inside the fragment (reported, not required).
+* of the `EvalPivot` branch of `execute_query`: `exec_pivot_fill`, the statements from `pivoted = []` to the return
+  (sort by the first pivot column, groupby, slice assignment of each row's block); the whole branch (`exec_pivot`:
+  keys, header names with lambdas / set comprehension / f-strings) when it is inside the fragment (reported, not required).
 
 A synthetic function's parameters are the locals of the host function that the selected statements read before
 writing them, in order of first occurrence; free names resolve against the host function's globals and builtins.
@@ -101,6 +103,19 @@ class SynthTranslator(py2mini.FuncTranslator):
         self.free = dict(host.__globals__)
         self.nonlocals = set()
 
+    def stmt(self, s):
+        # x[lo:hi] = e on a LOCAL list x (value semantics: no alias of x exists in the translated statements):
+        # x = setslice(x, lo, hi, e); the semantics of list slice assignment is Model/PrimsExec.v's "stmt:setslice"
+        if isinstance(s, ast.Assign) and len(s.targets) == 1 and isinstance(s.targets[0], ast.Subscript) \
+                and isinstance(s.targets[0].value, ast.Name) and s.targets[0].value.id in self.locals \
+                and isinstance(s.targets[0].slice, ast.Slice) and s.targets[0].slice.step is None \
+                and s.targets[0].slice.lower is not None and s.targets[0].slice.upper is not None:
+            t = s.targets[0]
+            x = py2mini.gstr(t.value.id)
+            return (f'(SAssign (TName {x}) (XPrim "stmt:setslice" [(XName {x}); {self.expr(t.slice.lower)}; '
+                    f'{self.expr(t.slice.upper)}; {self.expr(s.value)}]))')
+        return super().stmt(s)
+
 
 def _is_name(e, name):
     return isinstance(e, ast.Name) and e.id == name
@@ -167,6 +182,15 @@ def select_pivot(fd):
     return hits[0].body
 
 
+def select_pivot_fill(stmts):
+    """from `pivoted = []` to the return of the EvalPivot branch"""
+    start = [i for i, s in enumerate(stmts) if isinstance(s, ast.Assign) and len(s.targets) == 1
+             and _is_name(s.targets[0], 'pivoted') and isinstance(s.value, ast.List) and not s.value.elts]
+    if len(start) != 1 or not isinstance(stmts[-1], ast.Return):
+        raise Untranslatable('execute_query: expected exactly one `pivoted = []` followed by the filling loop and a return')
+    return stmts[start[0]:]
+
+
 def _inner(host, fdef, name, host_locals, refs, prims):
     a = fdef.args
     if a.vararg or a.kwarg or a.kwonlyargs or a.posonlyargs or a.defaults:
@@ -214,6 +238,9 @@ def spec_exec():
 
     qfd = _host_ast(qx.execute_query)
     piv = select_pivot(qfd)
+    fill = select_pivot_fill(piv)
+    out.append(('exec_pivot_fill', 'beanquery.query_execute.execute_query, EvalPivot branch: from `pivoted = []` to the return',
+                synth(qx.execute_query, 'pivot_fill', fill, _host_locals(qfd)), lines(fill), True))
     out.append(('exec_pivot', 'beanquery.query_execute.execute_query: body of the EvalPivot branch',
                 synth(qx.execute_query, 'pivot', piv, _host_locals(qfd)), lines(piv), False))
     return out
